@@ -1114,7 +1114,24 @@ func CastFromBool(cb *CodeBuilder, typ types.Type, v *Element) (ret *Element, ok
 			if constant.BoolVal(v.CVal) {
 				val = 1
 			}
-			return toExpr(nil, val, v.Src), true
+			ret = toExpr(nil, val, v.Src)
+			if cb != nil {
+				// the result is a constant of the target type, not an untyped integer
+				if t, ok := typ.Underlying().(*types.Basic); ok && t.Info()&types.IsUntyped == 0 {
+					cval := ret.CVal
+					switch {
+					case t.Info()&types.IsFloat != 0:
+						cval = constant.ToFloat(cval)
+					case t.Info()&types.IsComplex != 0:
+						cval = constant.ToComplex(cval)
+					}
+					ret = &internal.Elem{
+						Val:  &target.CallExpr{Fun: util.FakeExprOf(toType(cb.pkg, typ)), Args: []target.Expr{ret.Val}},
+						Type: typ, CVal: cval, Src: v.Src,
+					}
+				}
+			}
+			return ret, true
 		}
 		pkg := cb.pkg
 		results := types.NewTuple(types.NewParam(token.NoPos, pkg.Types, "", typ))
